@@ -552,6 +552,37 @@ Definition vars_persist (its : list item) : bool :=
   match p_locals p with [] => true | _ => false end &&
   no_intro_ann true (p_setup p) && no_intro_ann false (p_loop p).
 
+(* (1') weaker: names first assigned inside [while True:] are allowed when they are assigned by a
+       top-level statement of the body before anything reads them in that pass (then the fresh C++
+       local of every pass is indistinguishable from Python's persisting variable); blocks still may
+       not introduce names *)
+Definition reads_rhs (e : rhs) : list name := match e with RConst _ => [] | RAdd y _ => [y] end.
+
+Fixpoint reads_stmt (s : stmt) : list name :=
+  match s with
+  | SSet _ e => reads_rhs e
+  | SShow _ x => [x]
+  | SIf x b => x :: flat_map reads_stmt b
+  | SFor _ b => flat_map reads_stmt b
+  | _ => []
+  end.
+
+Definition top_assign (s : stmt) : list name := match s with SSet x _ => [x] | _ => [] end.
+
+(* y is a global, or a local of loop() already assigned in this pass *)
+Definition known_var (locals A : list name) (y : name) : bool := negb (mem_name y locals) || mem_name y A.
+
+Fixpoint da_list (locals A : list name) (l : list stmt) : bool :=
+  match l with
+  | [] => true
+  | s :: r => forallb (known_var locals A) (reads_stmt s) && da_list locals (top_assign s ++ A) r
+  end.
+
+Definition vars_ok (its : list item) : bool :=
+  let p := transl its in
+  no_intro_ann true (p_setup p) && no_intro_ann false (p_loop p) &&
+  da_list (p_locals p) [] (map snd (p_loop p)).
+
 (* (2) one main loop, and it is the last top-level item *)
 Definition is_main (it : item) : bool := match it with IMainLoop _ => true | _ => false end.
 Definition no_main (its : list item) : bool := forallb (fun it => negb (is_main it)) its.
